@@ -2,12 +2,14 @@ import VhostModel.DrvUtil
 import VhostModel.Model.Worker
 /-! driver family `worker` (model side): runs a schedule word through `Model.Worker.step` and prints the trace the harness
 prints.  Header `rule=pinned` selects the unrepaired code (default: all three C12 repairs), `rule=<l><e><s>` (three 0/1
-digits) individual repairs (lost-kick, stale-eagain, stopped-dispatch). -/
+digits) individual repairs (lost-kick, stale-eagain, stopped-dispatch), `rule=nofdmut` the repaired code with the mutated
+guard of `set_vring_kick` (`Cfg.nofdMutant`).  Scenario `stopnf`: GET_VRING_BASE, then SET_VRING_KICK with the
+no-descriptor flag; the restart (fresh descriptor) is part of the epilogue. -/
 namespace Drv.Worker
 open DrvUtil Model.Worker Spec.KickDelivery
 
 def tagOf : CMsg → String
-  | .disable => "d" | .enable => "e" | .stop => "s" | .restart => "r" | .reset => "x"
+  | .disable => "d" | .enable => "e" | .stop => "s" | .restart => "r" | .reset => "x" | .nofd => "n"
 
 def bits (s : St) : String := String.ofList ((List.range s.next).map fun d => if 0 < s.cnt d then '1' else '0')
 
@@ -52,6 +54,8 @@ def tokC (d : D) : D × String :=
     let nm := match m, k, s'.cpc with
       | .restart, 1, _ => "ready"
       | .restart, 2, _ => "epoll"
+      | .nofd, 1, _ => "ready"
+      | .nofd, 2, _ => "epoll"
       | _, _, c => ctlName m c
     ({ d with s := s' }, s!"{tagOf m}.{nm}")
 
@@ -96,19 +100,29 @@ def drain : Nat → St → St
     else if s.wpc == .wait && !readyAny s then s
     else drain f (applyL s [.w])
 
+/-- the control thread runs until it has replied -/
+def ctlToIdle : Nat → St → St
+  | 0, s => s
+  | f + 1, s => if s.cpc == .idle then s else ctlToIdle f (applyL s [.c])
+
+/-- a whole message of the epilogue -/
+def runMsg (s : St) (m : CMsg) : St := ctlToIdle 8 (applyL s [.send m])
+
 def run (toks : List String) : String :=
   let scen := (kv toks "scen").getD "disable"
   let cfg : Cfg := match kv toks "rule" with
     | some "pinned" => Cfg.pinned
+    | some "nofdmut" => Cfg.nofdMutant
     | some r => match r.toList with
-      | [a, b, c] => ⟨a == '1', b == '1', c == '1'⟩
+      | [a, b, c] => ⟨a == '1', b == '1', c == '1', false⟩
       | _ => Cfg.repaired
     | none => Cfg.repaired
   let sched := match kv toks "sched" with
     | some "-" => []
     | some s => s.splitOn ","
     | none => []
-  let msgs : List CMsg := if scen == "disable" then [.disable] else if scen == "reset" then [.reset] else [.stop, .restart]
+  let msgs : List CMsg := if scen == "disable" then [.disable] else if scen == "reset" then [.reset]
+    else if scen == "stopnf" then [.stop, .nofd] else [.stop, .restart]
   let d0 : D := { s := init cfg, msgs := msgs, extra := 0, out := [] }
   let d := sched.foldl tok d0
   let tr := if d.out.isEmpty then "-" else ",".intercalate d.out.reverse
@@ -116,7 +130,9 @@ def run (toks : List String) : String :=
   let d1 := finishCtl 32 d
   let s1 := drain 64 d1.s
   let n1 := dispatches s1
-  let s2 := if scen == "stop" then s1 else applyL s1 [.send .enable, .c, .c, .c]
+  let s2 := if scen == "stop" then s1
+    else if scen == "stopnf" then runMsg s1 .restart
+    else runMsg s1 .enable
   let s2 := drain 64 s2
   let n2 := dispatches s2
   let s3 := drain 64 (applyL s2 [.kick (s2.next - 1)])
